@@ -33,6 +33,10 @@ CLAIMS = {
         text="Theorems over the defunctionalised recogniser, on the regenerated constants: text_ground, c0_ground, esc_final / esc_unknown_final / esc_hash / esc_percent / esc_charset, introducers, "
              "paramValue_spec (empty = 0, saturating at 9999 for digit runs of any length), csi_digit / csi_private / csi_embedded_control / csi_skip / csi_abort / csi_dollar / csi_final, "
              "csi_complete (for every list of digit strings and every final: exactly one dispatch with the decoded parameters, back in ground), csi_unknown_final, no_text_inside. "
+             "End to end (Props/Grammar/C03.lean over Proofs/Grammar.lean): the documented grammar is written as a relation Grammar.Unit between a complete unit of input (text character, C0 control, ESC / ESC # / ESC % / "
+             "ESC ( ) sequence, CSI sequence with any body and either introducer - completed, aborted by CAN/SUB or `$`+1 -, OSC string) and its listener events, with no reference to recogniser states; "
+             "feed_decomposes: EVERY input string is a sequence of such units followed by an incomplete one, the recogniser's events are exactly those units' events in order, and it is in the ground state exactly when "
+             "nothing is incomplete; unit_sound / units_sound / grammar_spec: conversely any reading of an input as units yields the recogniser's events. "
              "Dispatch.C03.dispatch_probes: the model's csi / escape / basic dispatch agree with what the compiled crate's dispatch functions call for every probed final, parameter-list shape and private flag "
              "(regenerated and re-decided by the kernel on every run). The tie of the recogniser is the lockstep comparison of the listener calls of the shipping parser with the model's, chunk by chunk, "
              "over generated, garbled, respelled and enumerated strings.",
